@@ -5,7 +5,7 @@ from rules import anchors, common, c13
 
 CLAIMED = True
 TECHNIQUE = "static analysis over type-checked MIR: cross-check of separator constants between insertion, lookup and name validation; dominance of an ascending sort over the insertion loop; control dependence of the additive extension; aggregate field provenance for inheritance; loop-edge analysis of the longest-prefix walk; comparison normal form; single indexed delivery site; same-vector provenance of the index table"
-LEVEL_TEXT = """Static, all-paths decision of the structural clauses of the routing tree (the tree algorithm's exactness for every configuration and target is NOT claimed): (R11) the configuration accessors, builder setters and build() functions through which routing reads names, levels, additivity and appender lists return/store exactly the same-named field (C13.V7 re-evaluated); (R1) one separator constant in add/find, slice offset = len(SEP), and the name check uses SEP's character and length; (R2) the insertion loop iterates a vector on which an ascending sort by name length (or name) dominates the loop; (R3) the new node's appender list is extended with the parent's only on the additive==true edge; (R4) the leaf takes level/appenders from the parameters, the implied intermediate takes the parent's level and a clone of its appenders, chosen by rest.is_empty(); (R5) in find the only back edge is on the children.get(part)==Some arm which rebinds the node, None leaves the loop, the result is the last bound node; (R6) enabled is threshold >= level; (R7) exactly one indexed delivery site inside the loop over the node's own appender list, gated by enabled(record.level()); (R8) the name->index map is built from enumerate() over the same vector that becomes the appender table via into_iter() with no reordering in between; (R9) an existing child is never replaced: insert only on the get_mut==None edge, the Some edge recurses and returns; (R10) both recursive add calls forward rest/appenders/additive/level unchanged. (R15) with config_parsing: RawConfig::loggers hands every logger's name, level, appender list and additivity to the builder unconditionally (C14.K7 re-evaluated). (R16) set_config publishes the installed logger's maximum (C02.T3 re-evaluated); (R17) one snapshot per call, also through callees (C15.A1); (R18) build_lossy keeps items as given (C13.V9). (R19) the node looked up is the one for the record's own target (C02.T1 re-evaluated)."""
+LEVEL_TEXT = """Static, all-paths decision of the structural clauses of the routing tree (the tree algorithm's exactness for every configuration and target is NOT claimed): (R11) the configuration accessors, builder setters and build() functions through which routing reads names, levels, additivity and appender lists return/store exactly the same-named field (C13.V7 re-evaluated); (R1) one separator constant in add/find, slice offset = len(SEP), and the name check uses SEP's character and length; (R2) the insertion loop iterates a vector on which an ascending sort by name length (or name) dominates the loop; (R3) the new node's appender list is extended with the parent's only on the additive==true edge; (R4) the leaf takes level/appenders from the parameters, the implied intermediate takes the parent's level and a clone of its appenders, chosen by rest.is_empty(); (R5) in find the only back edge is on the children.get(part)==Some arm which rebinds the node, None leaves the loop, the result is the last bound node; (R6) enabled is threshold >= level; (R7) exactly one indexed delivery site inside the loop over the node's own appender list, gated by enabled(record.level()); (R8) the name->index map is built from enumerate() over the same vector that becomes the appender table via into_iter() with no reordering in between; (R9) an existing child is never replaced: insert only on the get_mut==None edge, the Some edge recurses and returns; (R10) both recursive add calls forward rest/appenders/additive/level unchanged. (R15) with config_parsing: RawConfig::loggers hands every logger's name, level, appender list and additivity to the builder unconditionally (C14.K7 re-evaluated). (R16) set_config publishes the installed logger's maximum (C02.T3 re-evaluated); (R17) one snapshot per call, also through callees (C15.A1); (R18) build_lossy keeps items as given (C13.V9). (R19) the node looked up is the one for the record's own target (C02.T1 re-evaluated). (R20) each attachment delivers unless the appender's own filters reject (C03.F1 re-evaluated)."""
 LEVEL_NOTE = "Trusted: rustc MIR/callee resolution; HashMap/str::find/split/sort_by_key semantics. Decides shape clauses on all paths of four functions; a shape-preserving semantic change inside the map keying (e.g. lower-casing a component) is not detected."
 EXPLANATION = """Decided: R1 separator agreement, R2 ancestors first, R3 additive polarity, R4 inheritance shape, R5 longest-prefix walk, R6 threshold comparator, R7 fan-out, R8 index-table agreement, R9 no replacement of existing nodes, R10 recursion forwards its arguments. Undecided: exactness of the tree algorithm for every configuration and target (recursion, HashMap semantics, empty components, stray colons)."""
 DECIDED = ["R1", "R2", "R3", "R4", "R5", "R6", "R7", "R8", "R9", "R10", "R11 config accessors/setters/build are faithful", "R12 a failing appender does not cost later attachments their delivery (C03.F3 re-evaluated)", "R13 every declared logger is inserted (no path through add() skips both the insertion and the recursion)", "R14 the published maximum ranges over every node of the tree (C02.T2 re-evaluated)"]
@@ -226,6 +226,7 @@ def run_cfg(ctx, p, cfg):
     c15.rule_one_snapshot(ctx, p, cfg, "R17")   # the node found and the appender table indexed belong to one configuration (C15.A1 re-evaluated)
     from rules import c13
     c13.rule_kept_as_given(ctx, p, cfg, "R18")   # the names, levels and lists the tree is built from are the ones declared (C13.V9 re-evaluated)
+    c03.rule_chain_interpreter(ctx, p, cfg, "R20")   # each attachment produces its delivery unless the appender's own filters reject (C03.F1 re-evaluated)
     c02.rule_same_predicate(ctx, p, cfg, "R19")   # the node looked up is the one for the record's own target - an empty target is the root's (C02.T1 re-evaluated)
     c02.rule_install_publishes(ctx, p, cfg, "R16")   # ... and only if the maximum published with an installation is the installed logger's, not its predecessor's (C02.T3 re-evaluated)
     if "config_parsing" in p.meta.get("features", []):
